@@ -10,9 +10,10 @@ use crate::{
     crypto::{encrypt_block, hash_string, hash_type},
     header::FormatVersion,
     special_files::{AttributeFlags, Attributes, FileAttributes},
-    tables::{BetHeader, BlockEntry, BlockTable, HashEntry, HashTable, HetHeader, HiBlockTable},
+    tables::{BlockEntry, BlockTable, HashEntry, HashTable, HiBlockTable},
 };
 use bytes::Bytes;
+use md5::{Digest, Md5};
 use std::collections::HashMap;
 use std::fs::{File, OpenOptions};
 use std::io::{Read, Seek, SeekFrom, Write};
@@ -116,14 +117,6 @@ pub struct MutableArchive {
     attributes_dirty: bool,
     /// Track modified blocks for CRC calculation (block_index -> filename)
     modified_blocks: HashMap<u32, String>,
-    /// Updated HET table position for V3+ archives
-    updated_het_pos: Option<u64>,
-    /// Updated BET table position for V3+ archives  
-    updated_bet_pos: Option<u64>,
-    /// Updated hash table position for V3+ archives
-    updated_hash_table_pos: Option<u64>,
-    /// Updated block table position for V3+ archives
-    updated_block_table_pos: Option<u64>,
 }
 
 impl MutableArchive {
@@ -161,10 +154,6 @@ impl MutableArchive {
             _special_file_blocks: HashMap::new(),
             attributes_dirty: false,
             modified_blocks: HashMap::new(),
-            updated_het_pos: None,
-            updated_bet_pos: None,
-            updated_hash_table_pos: None,
-            updated_block_table_pos: None,
         })
     }
 
@@ -694,14 +683,16 @@ impl MutableArchive {
             self.update_attributes()?;
         }
 
-        // Write updated tables
+        // Write updated tables and point the header at them
         self.write_tables()?;
-
-        // Update archive header
-        self.update_header()?;
 
         self.file.sync_all()?;
         self.dirty = false;
+
+        // Reload the read-only view so that it sees the flushed state; new data goes
+        // behind the tables just written
+        self.archive = Archive::open(&self._path)?;
+        self.next_file_offset = None;
 
         Ok(())
     }
@@ -1168,107 +1159,34 @@ impl MutableArchive {
         Ok(())
     }
 
-    /// Write updated tables back to the archive
-    fn write_tables(&mut self) -> Result<()> {
-        let header = self.archive.header();
-
-        // For V3+ archives, we need to rebuild the entire table structure
-        // to maintain the correct order: HET, BET, Hash, Block
-        if header.format_version >= FormatVersion::V3 {
-            return self.write_tables_v3_plus();
-        }
-
-        // For V1/V2 archives, use the original simple approach
-        let archive_offset = self.archive.archive_offset();
-
-        // Write hash table
-        if let Some(hash_table) = &self.hash_table {
-            let hash_table_pos = archive_offset + header.hash_table_pos as u64;
-            self.file.seek(SeekFrom::Start(hash_table_pos))?;
-
-            // Convert to bytes and encrypt
-            let mut table_data = Vec::new();
-            for entry in hash_table.entries() {
-                table_data.extend_from_slice(&entry.name_1.to_le_bytes());
-                table_data.extend_from_slice(&entry.name_2.to_le_bytes());
-                table_data.extend_from_slice(&entry.locale.to_le_bytes());
-                table_data.extend_from_slice(&entry.platform.to_le_bytes());
-                table_data.extend_from_slice(&entry.block_index.to_le_bytes());
-            }
-
-            // Encrypt the table
-            let key = hash_string("(hash table)", hash_type::FILE_KEY);
-            let mut u32_buffer: Vec<u32> = table_data
-                .chunks_exact(4)
-                .map(|chunk| u32::from_le_bytes([chunk[0], chunk[1], chunk[2], chunk[3]]))
-                .collect();
-            encrypt_block(&mut u32_buffer, key);
-
-            // Write back
-            for &value in &u32_buffer {
-                self.file.write_all(&value.to_le_bytes())?;
-            }
-        }
-
-        // Write block table
-        if let Some(block_table) = &self.block_table {
-            let block_table_pos = archive_offset + header.block_table_pos as u64;
-            self.file.seek(SeekFrom::Start(block_table_pos))?;
-
-            // Convert to bytes and encrypt
-            let mut table_data = Vec::new();
-            for entry in block_table.entries() {
-                table_data.extend_from_slice(&entry.file_pos.to_le_bytes());
-                table_data.extend_from_slice(&entry.compressed_size.to_le_bytes());
-                table_data.extend_from_slice(&entry.file_size.to_le_bytes());
-                table_data.extend_from_slice(&entry.flags.to_le_bytes());
-            }
-
-            // Encrypt the table
-            let key = hash_string("(block table)", hash_type::FILE_KEY);
-            let mut u32_buffer: Vec<u32> = table_data
-                .chunks_exact(4)
-                .map(|chunk| u32::from_le_bytes([chunk[0], chunk[1], chunk[2], chunk[3]]))
-                .collect();
-            encrypt_block(&mut u32_buffer, key);
-
-            // Write back
-            for &value in &u32_buffer {
-                self.file.write_all(&value.to_le_bytes())?;
-            }
-        }
-
-        Ok(())
+    /// Serialise table rows and encrypt them with the key derived from `key_name`
+    fn encrypt_table(table_data: &[u8], key_name: &str) -> Vec<u8> {
+        let key = hash_string(key_name, hash_type::FILE_KEY);
+        let mut u32_buffer: Vec<u32> = table_data
+            .chunks_exact(4)
+            .map(|chunk| u32::from_le_bytes([chunk[0], chunk[1], chunk[2], chunk[3]]))
+            .collect();
+        encrypt_block(&mut u32_buffer, key);
+        u32_buffer.iter().flat_map(|v| v.to_le_bytes()).collect()
     }
 
-    /// Write tables for V3+ archives with correct ordering
-    fn write_tables_v3_plus(&mut self) -> Result<()> {
+    /// Write updated tables back to the archive
+    ///
+    /// The tables are placed behind all file data. The block table grows with every
+    /// added file, so rewriting it at its original position would run into the data
+    /// appended after it. Only the classic hash and block tables are written; for V3+
+    /// archives the header is pointed at them and the stale HET/BET tables are dropped.
+    fn write_tables(&mut self) -> Result<()> {
         let hash_table = self
             .hash_table
             .as_ref()
-            .ok_or_else(|| Error::invalid_format("Hash table not loaded for V3+ table write"))?;
+            .ok_or_else(|| Error::invalid_format("Hash table not loaded for table write"))?;
         let block_table = self
             .block_table
             .as_ref()
-            .ok_or_else(|| Error::invalid_format("Block table not loaded for V3+ table write"))?;
+            .ok_or_else(|| Error::invalid_format("Block table not loaded for table write"))?;
 
-        // Find the end of file data to start writing tables
-        let current_pos = self.file.stream_position()?;
-        let archive_offset = self.archive.archive_offset();
-
-        // Write HET table first (correct order for V3+)
-        let het_pos = current_pos - archive_offset;
-        let (het_data, _het_header) = self.create_het_table_from_hash_table(hash_table)?;
-        self.file.write_all(&het_data)?;
-
-        // Write BET table second
-        let bet_pos = self.file.stream_position()? - archive_offset;
-        let (bet_data, _bet_header) = self.create_bet_table_from_block_table(block_table)?;
-        self.file.write_all(&bet_data)?;
-
-        // Write hash table third
-        let hash_table_pos = self.file.stream_position()? - archive_offset;
-        let mut table_data = Vec::new();
+        let mut table_data = Vec::with_capacity(hash_table.size() * 16);
         for entry in hash_table.entries() {
             table_data.extend_from_slice(&entry.name_1.to_le_bytes());
             table_data.extend_from_slice(&entry.name_2.to_le_bytes());
@@ -1276,365 +1194,107 @@ impl MutableArchive {
             table_data.extend_from_slice(&entry.platform.to_le_bytes());
             table_data.extend_from_slice(&entry.block_index.to_le_bytes());
         }
+        let hash_bytes = Self::encrypt_table(&table_data, "(hash table)");
 
-        // Encrypt the hash table
-        let key = hash_string("(hash table)", hash_type::FILE_KEY);
-        let mut u32_buffer: Vec<u32> = table_data
-            .chunks_exact(4)
-            .map(|chunk| u32::from_le_bytes([chunk[0], chunk[1], chunk[2], chunk[3]]))
-            .collect();
-        encrypt_block(&mut u32_buffer, key);
-
-        // Write encrypted hash table
-        for &value in &u32_buffer {
-            self.file.write_all(&value.to_le_bytes())?;
-        }
-
-        // Write block table fourth
-        let block_table_pos = self.file.stream_position()? - archive_offset;
-        let mut table_data = Vec::new();
+        let mut table_data = Vec::with_capacity(block_table.entries().len() * 16);
         for entry in block_table.entries() {
             table_data.extend_from_slice(&entry.file_pos.to_le_bytes());
             table_data.extend_from_slice(&entry.compressed_size.to_le_bytes());
             table_data.extend_from_slice(&entry.file_size.to_le_bytes());
             table_data.extend_from_slice(&entry.flags.to_le_bytes());
         }
+        let block_bytes = Self::encrypt_table(&table_data, "(block table)");
+        let block_count = block_table.entries().len() as u32;
 
-        // Encrypt the block table
-        let key = hash_string("(block table)", hash_type::FILE_KEY);
-        let mut u32_buffer: Vec<u32> = table_data
-            .chunks_exact(4)
-            .map(|chunk| u32::from_le_bytes([chunk[0], chunk[1], chunk[2], chunk[3]]))
-            .collect();
-        encrypt_block(&mut u32_buffer, key);
+        let archive_offset = self.archive.archive_offset();
+        let tables_start = self.get_archive_end_offset()?;
+        self.file.seek(SeekFrom::Start(tables_start))?;
+        self.file.write_all(&hash_bytes)?;
+        self.file.write_all(&block_bytes)?;
 
-        // Write encrypted block table
-        for &value in &u32_buffer {
-            self.file.write_all(&value.to_le_bytes())?;
+        let hash_table_pos = tables_start - archive_offset;
+        let block_table_pos = hash_table_pos + hash_bytes.len() as u64;
+        let archive_size = block_table_pos + block_bytes.len() as u64;
+        if archive_size > u32::MAX as u64 {
+            return Err(Error::invalid_format(
+                "Archive too large for in-place modification",
+            ));
         }
 
-        // Store all the updated positions for header update
-        self.updated_het_pos = Some(het_pos);
-        self.updated_bet_pos = Some(bet_pos);
-        self.updated_hash_table_pos = Some(hash_table_pos);
-        self.updated_block_table_pos = Some(block_table_pos);
-
-        Ok(())
-    }
-
-    /// Create HET table data from hash table (simplified version of ArchiveBuilder logic)
-    fn create_het_table_from_hash_table(
-        &self,
-        hash_table: &HashTable,
-    ) -> Result<(Vec<u8>, HetHeader)> {
-        use crate::crypto::het_hash;
-
-        // Count actual files from the hash table
-        let mut file_count = 0u32;
-        for entry in hash_table.entries() {
-            if !entry.is_empty() {
-                file_count += 1;
-            }
-        }
-
-        let hash_table_entries = (file_count * 2).max(16).next_power_of_two();
-
-        // Create header
-        let header = HetHeader {
-            table_size: 0, // Will be calculated later
-            max_file_count: file_count,
-            hash_table_size: hash_table_entries,
-            hash_entry_size: 8,
-            total_index_size: hash_table_entries * Self::calculate_bits_needed(file_count as u64),
-            index_size_extra: 0,
-            index_size: Self::calculate_bits_needed(file_count as u64),
-            block_table_size: 0,
-        };
-
-        let index_size = header.index_size;
-
-        // Create hash table and file indices arrays
-        let mut het_hash_table = vec![0xFFu8; hash_table_entries as usize];
-        let file_indices_size = (header.total_index_size as usize).div_ceil(8);
-        let mut file_indices = vec![0u8; file_indices_size];
-
-        // Pre-fill with invalid indices
-        let invalid_index = (1u64 << index_size) - 1;
-        for i in 0..hash_table_entries {
-            self.write_bit_entry(&mut file_indices, i as usize, invalid_index, index_size)?;
-        }
-
-        // Process files from hash table
-        let mut file_index = 0;
-        for entry in hash_table.entries() {
-            if !entry.is_empty() {
-                // Reconstruct filename from hash (this is an approximation)
-                let filename = generate_anonymous_filename(file_index); // Optimized filename generation
-
-                let hash_bits = 8;
-                let (hash, name_hash1) = het_hash(&filename, hash_bits);
-                let start_index = (hash % hash_table_entries as u64) as usize;
-
-                // Linear probing for collision resolution
-                let mut current_index = start_index;
-                loop {
-                    if het_hash_table[current_index] == 0xFF {
-                        het_hash_table[current_index] = name_hash1;
-                        self.write_bit_entry(
-                            &mut file_indices,
-                            current_index,
-                            file_index as u64,
-                            index_size,
-                        )?;
-                        break;
-                    }
-                    current_index = (current_index + 1) % hash_table_entries as usize;
-                    if current_index == start_index {
-                        return Err(Error::invalid_format("HET table full"));
-                    }
-                }
-                file_index += 1;
-            }
-        }
-
-        // Build the result with extended header
-        let het_header_size = std::mem::size_of::<HetHeader>();
-        let data_size = het_header_size as u32 + hash_table_entries + file_indices_size as u32;
-        let table_size = 12 + data_size;
-
-        let mut final_header = header;
-        final_header.table_size = table_size;
-
-        let mut result = Vec::with_capacity((12 + data_size) as usize);
-
-        // Write extended header
-        result.extend_from_slice(&0x1A544548u32.to_le_bytes()); // "HET\x1A"
-        result.extend_from_slice(&1u32.to_le_bytes()); // version
-        result.extend_from_slice(&data_size.to_le_bytes()); // data_size
-
-        // Write HET header
-        result.extend_from_slice(&final_header.table_size.to_le_bytes());
-        result.extend_from_slice(&final_header.max_file_count.to_le_bytes());
-        result.extend_from_slice(&final_header.hash_table_size.to_le_bytes());
-        result.extend_from_slice(&final_header.hash_entry_size.to_le_bytes());
-        result.extend_from_slice(&final_header.total_index_size.to_le_bytes());
-        result.extend_from_slice(&final_header.index_size_extra.to_le_bytes());
-        result.extend_from_slice(&final_header.index_size.to_le_bytes());
-        result.extend_from_slice(&final_header.block_table_size.to_le_bytes());
-
-        // Write hash table and file indices
-        result.extend_from_slice(&het_hash_table);
-        result.extend_from_slice(&file_indices);
-
-        Ok((result, final_header))
-    }
-
-    /// Create BET table data from block table (simplified version)
-    fn create_bet_table_from_block_table(
-        &self,
-        block_table: &BlockTable,
-    ) -> Result<(Vec<u8>, BetHeader)> {
-        use crate::crypto::jenkins_hash;
-
-        let file_count = block_table.entries().len() as u32;
-
-        // Analyze block table to determine optimal bit widths (simplified)
-        let bit_count_file_pos = 32; // Use full 32 bits for simplicity
-        let bit_count_file_size = 32;
-        let bit_count_cmp_size = 32;
-        let bit_count_flag_index = 8; // Assume max 256 unique flag combinations
-        let table_entry_size =
-            bit_count_file_pos + bit_count_file_size + bit_count_cmp_size + bit_count_flag_index;
-
-        let header = BetHeader {
-            table_size: 0, // Will be calculated later
-            file_count,
-            unknown_08: 0x10,
-            table_entry_size,
-            bit_index_file_pos: 0,
-            bit_index_file_size: bit_count_file_pos,
-            bit_index_cmp_size: bit_count_file_pos + bit_count_file_size,
-            bit_index_flag_index: bit_count_file_pos + bit_count_file_size + bit_count_cmp_size,
-            bit_index_unknown: table_entry_size,
-            bit_count_file_pos,
-            bit_count_file_size,
-            bit_count_cmp_size,
-            bit_count_flag_index,
-            bit_count_unknown: 0,
-            total_bet_hash_size: file_count * 64, // 64-bit hashes
-            bet_hash_size_extra: 0,
-            bet_hash_size: 64,
-            bet_hash_array_size: file_count * 8, // 8 bytes per 64-bit hash
-            flag_count: 1,                       // Simplified: assume all files have same flags
-        };
-
-        // Create simplified BET table
-        let bet_header_size = std::mem::size_of::<BetHeader>();
-        let data_size = bet_header_size as u32 + 4 + (file_count * 12); // header + flag array + file table + hashes
-        let table_size = 12 + data_size;
-
-        let mut final_header = header;
-        final_header.table_size = table_size;
-
-        let mut result = Vec::with_capacity((12 + data_size) as usize);
-
-        // Write extended header
-        result.extend_from_slice(&0x1A544542u32.to_le_bytes()); // "BET\x1A"
-        result.extend_from_slice(&1u32.to_le_bytes()); // version
-        result.extend_from_slice(&data_size.to_le_bytes()); // data_size
-
-        // Write BET header (simplified)
-        result.extend_from_slice(&final_header.table_size.to_le_bytes());
-        result.extend_from_slice(&final_header.file_count.to_le_bytes());
-        result.extend_from_slice(&final_header.unknown_08.to_le_bytes());
-        result.extend_from_slice(&final_header.table_entry_size.to_le_bytes());
-
-        // Write remaining header fields (simplified)
-        for _ in 0..15 {
-            // Fill remaining header fields with zeros
-            result.extend_from_slice(&0u32.to_le_bytes());
-        }
-
-        // Write flag array (simplified)
-        result.extend_from_slice(&0u32.to_le_bytes()); // Single flag value
-
-        // Write simplified file table and hashes
-        for (i, entry) in block_table.entries().iter().enumerate() {
-            result.extend_from_slice(&entry.file_pos.to_le_bytes());
-            result.extend_from_slice(&entry.file_size.to_le_bytes());
-            result.extend_from_slice(&entry.compressed_size.to_le_bytes());
-
-            // Generate a hash for this file (placeholder)
-            let hash = jenkins_hash(&generate_anonymous_filename(i as u32));
-            result.extend_from_slice(&hash.to_le_bytes());
-        }
-
-        Ok((result, final_header))
-    }
-
-    /// Write a bit-packed entry to a byte array
-    fn write_bit_entry(
-        &self,
-        data: &mut [u8],
-        index: usize,
-        value: u64,
-        bit_size: u32,
-    ) -> Result<()> {
-        let bit_offset = index * bit_size as usize;
-        let byte_offset = bit_offset / 8;
-        let bit_shift = bit_offset % 8;
-
-        let bits_needed = bit_shift + bit_size as usize;
-        let bytes_needed = bits_needed.div_ceil(8);
-
-        if byte_offset + bytes_needed > data.len() {
-            return Err(Error::invalid_format("Bit entry out of bounds"));
-        }
-
-        // Read existing bits
-        let mut existing = 0u64;
-        let max_bytes = bytes_needed.min(8);
-        for i in 0..max_bytes {
-            if byte_offset + i < data.len() && i * 8 < 64 {
-                existing |= (data[byte_offset + i] as u64) << (i * 8);
-            }
-        }
-
-        // Clear the bits we're about to write
-        let value_mask = if bit_size >= 64 {
-            u64::MAX
-        } else {
-            (1u64 << bit_size) - 1
-        };
-        let mask = value_mask << bit_shift;
-        existing &= !mask;
-
-        // Write the new value
-        existing |= (value & value_mask) << bit_shift;
-
-        // Write back
-        for i in 0..max_bytes {
-            if byte_offset + i < data.len() && i * 8 < 64 {
-                data[byte_offset + i] = (existing >> (i * 8)) as u8;
-            }
-        }
-
-        Ok(())
-    }
-
-    /// Calculate the number of bits needed to represent a value
-    fn calculate_bits_needed(max_value: u64) -> u32 {
-        if max_value == 0 {
-            1
-        } else {
-            (64 - max_value.leading_zeros()).max(1)
-        }
+        self.update_header(
+            hash_table_pos,
+            block_table_pos,
+            block_count,
+            archive_size,
+            &hash_bytes,
+            &block_bytes,
+        )
     }
 
     /// Update the archive header
-    fn update_header(&mut self) -> Result<()> {
+    fn update_header(
+        &mut self,
+        hash_table_pos: u64,
+        block_table_pos: u64,
+        block_count: u32,
+        archive_size: u64,
+        hash_bytes: &[u8],
+        block_bytes: &[u8],
+    ) -> Result<()> {
         let archive_offset = self.archive.archive_offset();
-        let mut header = self.archive.header().clone();
-        let mut needs_update = false;
+        let header = self.archive.header().clone();
 
-        // Update block table size if it has grown
-        if let Some(block_table) = &self.block_table {
-            let new_size = block_table.entries().len() as u32;
-            if new_size != header.block_table_size {
-                header.block_table_size = new_size;
-                needs_update = true;
-            }
+        let mut out = Vec::with_capacity(header.header_size as usize);
+        out.extend_from_slice(b"MPQ\x1A"); // Signature
+        out.extend_from_slice(&header.header_size.to_le_bytes());
+        out.extend_from_slice(&(archive_size as u32).to_le_bytes());
+        out.extend_from_slice(&(header.format_version as u16).to_le_bytes());
+        out.extend_from_slice(&header.block_size.to_le_bytes());
+        out.extend_from_slice(&(hash_table_pos as u32).to_le_bytes());
+        out.extend_from_slice(&(block_table_pos as u32).to_le_bytes());
+        out.extend_from_slice(&header.hash_table_size.to_le_bytes());
+        out.extend_from_slice(&block_count.to_le_bytes());
+
+        // Extended fields for v2+ (no hi-block table: all positions fit 32 bits)
+        if header.format_version >= FormatVersion::V2 {
+            out.extend_from_slice(&0u64.to_le_bytes());
+            out.extend_from_slice(&0u16.to_le_bytes());
+            out.extend_from_slice(&0u16.to_le_bytes());
         }
 
-        if needs_update {
-            // Seek to header position
-            self.file.seek(SeekFrom::Start(archive_offset))?;
-
-            // Write the header
-            self.file.write_all(b"MPQ\x1A")?; // Signature
-            self.file.write_all(&header.header_size.to_le_bytes())?;
-            self.file.write_all(&header.archive_size.to_le_bytes())?;
-            self.file
-                .write_all(&(header.format_version as u16).to_le_bytes())?;
-            self.file.write_all(&header.block_size.to_le_bytes())?;
-
-            // Use updated positions if available (for V3+), otherwise use original
-            let hash_pos = self
-                .updated_hash_table_pos
-                .unwrap_or(header.hash_table_pos as u64) as u32;
-            let block_pos = self
-                .updated_block_table_pos
-                .unwrap_or(header.block_table_pos as u64) as u32;
-
-            self.file.write_all(&hash_pos.to_le_bytes())?;
-            self.file.write_all(&block_pos.to_le_bytes())?;
-            self.file.write_all(&header.hash_table_size.to_le_bytes())?;
-            self.file
-                .write_all(&header.block_table_size.to_le_bytes())?;
-
-            // Write extended fields for v2+
-            if header.format_version >= FormatVersion::V2 {
-                self.file
-                    .write_all(&header.hi_block_table_pos.unwrap_or(0).to_le_bytes())?;
-                self.file
-                    .write_all(&header.hash_table_pos_hi.unwrap_or(0).to_le_bytes())?;
-                self.file
-                    .write_all(&header.block_table_pos_hi.unwrap_or(0).to_le_bytes())?;
-            }
-
-            // Write v3+ fields
-            if header.format_version >= FormatVersion::V3 {
-                self.file
-                    .write_all(&header.archive_size_64.unwrap_or(0).to_le_bytes())?;
-
-                // Use updated positions if available, otherwise use original
-                let het_pos = self.updated_het_pos.or(header.het_table_pos).unwrap_or(0);
-                let bet_pos = self.updated_bet_pos.or(header.bet_table_pos).unwrap_or(0);
-
-                self.file.write_all(&het_pos.to_le_bytes())?;
-                self.file.write_all(&bet_pos.to_le_bytes())?;
-            }
+        // v3+ fields: no HET/BET tables any more
+        if header.format_version >= FormatVersion::V3 {
+            out.extend_from_slice(&archive_size.to_le_bytes());
+            out.extend_from_slice(&0u64.to_le_bytes());
+            out.extend_from_slice(&0u64.to_le_bytes());
         }
+
+        // v4 fields: table sizes and digests of the tables as stored
+        if header.format_version >= FormatVersion::V4 {
+            let raw_chunk_size = header
+                .v4_data
+                .as_ref()
+                .map(|v4| v4.raw_chunk_size)
+                .unwrap_or(0x4000);
+            out.extend_from_slice(&(hash_bytes.len() as u64).to_le_bytes());
+            out.extend_from_slice(&(block_bytes.len() as u64).to_le_bytes());
+            out.extend_from_slice(&0u64.to_le_bytes()); // hi-block table
+            out.extend_from_slice(&0u64.to_le_bytes()); // HET table
+            out.extend_from_slice(&0u64.to_le_bytes()); // BET table
+            out.extend_from_slice(&raw_chunk_size.to_le_bytes());
+            let block_md5: [u8; 16] = Md5::digest(block_bytes).into();
+            let hash_md5: [u8; 16] = Md5::digest(hash_bytes).into();
+            out.extend_from_slice(&block_md5);
+            out.extend_from_slice(&hash_md5);
+            out.extend_from_slice(&[0u8; 16]); // hi-block table
+            out.extend_from_slice(&[0u8; 16]); // BET table
+            out.extend_from_slice(&[0u8; 16]); // HET table
+            let header_md5: [u8; 16] = Md5::digest(&out).into();
+            out.extend_from_slice(&header_md5);
+        }
+
+        self.file.seek(SeekFrom::Start(archive_offset))?;
+        self.file.write_all(&out)?;
 
         Ok(())
     }
